@@ -257,7 +257,7 @@ def pred_iter(prog, case, outs, tables, rooted):
     for j, (op, o) in enumerate(zip(case["ops"], outs)):
         if op["op"] != "iter" or o == PANIC:
             continue
-        is_rooted = op.get("root") is not None or "cap" in op["tg"] or op["d"] < prog.maxd or op.get("exact")
+        is_rooted = bool(op.get("root") is not None or "cap" in op["tg"] or op["d"] < prog.maxd or op.get("exact"))
         if is_rooted != rooted:
             continue
         if op.get("root") is not None:
